@@ -27,7 +27,7 @@ BOUND = {
 }
 TIME_CAP = {"quick": 240, "thorough": 3000}
 
-KINDS = ["f8", "i8", "u1", "b1", "str", "U", "D", "us", "ns", "td", "obj", "objb", "objs", "strz", "i8w", "i4", "f4", "strm", "Dx", "i8x"]
+KINDS = ["f8", "i8", "u1", "b1", "str", "U", "D", "us", "ns", "td", "obj", "objb", "objs", "strz", "i8w", "i4", "f4", "strm", "Dx", "i8x", "i1", "i2", "u4"]
 REAL_KIND = {"objb": "obj", "objs": "obj", "strz": "str", "i8w": "i8", "strm": "str", "Dx": "D", "i8x": "i8"}
 METHODS = [("sort", 1), ("sort", -1), ("rank", "min"), ("rank", "max"), ("rank", "ordinal"), ("unique", None)]
 
